@@ -318,6 +318,55 @@ theorem kvGet_kvApply_distinct {m : KVL VH} (hs : KSorted m) {ws : List (Key × 
     (k : Key) : kvGet (kvApply m ws) k = match wsLookup ws k with | some w => w | none => kvGet m k := by
   rw [kvGet_kvApply hs, wsLookupLast_eq_wsLookup hd]
 
+/-! ### histories of batches -/
+
+/-- apply a whole history of batches, oldest first -/
+def kvApplyAll (m : KVL VH) (bs : List (List (Key × Option VH))) : KVL VH := bs.foldl kvApply m
+
+theorem kvApplyAll_eq_flatten (m : KVL VH) (bs : List (List (Key × Option VH))) :
+    kvApplyAll m bs = kvApply m bs.flatten := by
+  induction bs generalizing m with
+  | nil => rfl
+  | cons b bs ih =>
+    simp only [List.flatten_cons, kvApply_append]
+    exact ih (kvApply m b)
+
+theorem kvApplyAll_sorted {m : KVL VH} (hs : KSorted m) (bs : List (List (Key × Option VH))) :
+    KSorted (kvApplyAll m bs) := by
+  rw [kvApplyAll_eq_flatten]; exact kvApply_sorted hs _
+
+/-- specification of `wsLookupLast`: it returns `w` iff `(k, w)` occurs with no later write to `k` -/
+theorem wsLookupLast_eq_some_iff (ws : List (Key × Option VH)) (k : Key) (w : Option VH) :
+    wsLookupLast ws k = some w ↔ ∃ pre post, ws = pre ++ (k, w) :: post ∧ ∀ kw ∈ post, kw.1 ≠ k := by
+  constructor
+  · intro h
+    induction ws with
+    | nil => simp [wsLookupLast] at h
+    | cons x xs ih =>
+      obtain ⟨k', w'⟩ := x
+      simp only [wsLookupLast] at h
+      cases hl : wsLookupLast xs k with
+      | some w'' =>
+        rw [hl] at h
+        have hw : w'' = w := Option.some.inj h
+        subst hw
+        obtain ⟨pre, post, e, hp⟩ := ih hl
+        exact ⟨(k', w') :: pre, post, by rw [e]; rfl, hp⟩
+      | none =>
+        rw [hl] at h
+        by_cases hk : (k' == k) = true
+        · simp only [hk, if_true] at h
+          have hw : w' = w := Option.some.inj h
+          have hk' : k' = k := by simpa using hk
+          subst hw hk'
+          exact ⟨[], xs, rfl, (wsLookupLast_eq_none_iff xs k').1 hl⟩
+        · simp [hk] at h
+  · rintro ⟨pre, post, e, hp⟩
+    subst e
+    rw [wsLookupLast_append]
+    have : wsLookupLast post k = none := (wsLookupLast_eq_none_iff post k).2 hp
+    simp [wsLookupLast, this]
+
 /-! ### extensionality -/
 
 theorem kvGet_head {x : Key × VH} {m : KVL VH} : kvGet (x :: m) x.1 = some x.2 := by
